@@ -8,6 +8,18 @@ def c_prog(driver, prog, target="sql.sqlite", k=2, timeout_ms=20000, schema=None
     return o
 
 
+def c_prog_generic(driver, prog, k=2, timeout_ms=20000, schema=None):
+    """the generic target, decided only where its text differs from the sqlite target's (that text is decided by c_prog)"""
+    text = prog.text()
+    a = driver.compile(text, "sql.sqlite")
+    b = driver.compile(text, "sql.generic")
+    if a.get("ok") and b.get("ok") and a.get("sql") == b.get("sql"):
+        o = symdb.Outcome("same_text", prql=text, sql=b["sql"])
+        o.features = sorted(getattr(prog, "features", set()) | {"target:sql.generic"})
+        return o
+    return c_prog(driver, prog, target="sql.generic", k=k, timeout_ms=timeout_ms, schema=schema)
+
+
 def c_expr(driver, prog, target="sql.sqlite", timeout_ms=20000):
     import families
     feats = getattr(prog, "features", set())
